@@ -20,7 +20,7 @@ def type_boundary_coeffs():
     return out
 
 
-TYPE_MAXIMA = ((1 << 31) - 1, (1 << 32) - 1, (1 << 63) - 1, (1 << 64) - 1, M)
+TYPE_MAXIMA = ((1 << 31) - 1, (1 << 32) - 1, (1 << 63) - 1, (1 << 64) - 1, M, (1 << 128) - 1)
 
 
 def type_scaled_thresholds():
@@ -79,6 +79,10 @@ def coeff(rng):
         c = M // rng.randrange(1, 1000)
     elif k == 10:
         c = rng.randrange(0, 1000)
+    elif k == 11:
+        c = limb_structured(rng)
+    elif k == 12:
+        c = modinv_boundary(rng)[0]
     else:
         c = rng.getrandbits(rng.randrange(1, 128))
     if c > M:
@@ -214,4 +218,123 @@ def split_values(rng, s, n=6):
             c = q * t + r
             if 0 < c <= M and r >= 0:
                 out.append(c)
+    return out
+
+
+def threshold_pairs(rng):
+    """Operand pairs ((v, p), (x, q)) with q - p == k for every type-scaled threshold (v, k): the operand that has to be
+    multiplied by exactly 10^k sits at floor(T / 10^k) +- 2. Both operand orders; x small, equal-valued, or random."""
+    out = []
+    for v, k in type_scaled_thresholds():
+        p = rng.randrange(0, 19 - k)
+        q = p + k
+        xs = [1, -1, rng.randrange(-10 ** 9, 10 ** 9), rng.randrange(-M, M)]
+        w = v * P10[k]
+        for e in (0, 1, -1):
+            if abs(w + e) <= M:
+                xs.append(w + e)
+        for x in xs:
+            out.append(((v, p), (x, q)))
+            out.append(((x, q), (v, p)))
+        # both operands inside the same narrow band (iterated reductions keep their running value below the other
+        # operand), the scale difference k or larger, either order
+        q2 = rng.randrange(q, 19)
+        for x in (v - 1, v + 1, v - 2, v + 2, v + rng.randrange(3, 1000)):
+            out.append(((v, p), (x, q2)))
+            out.append(((x, p), (v, q2)))
+            out.append(((x, q2), (v, p)))
+    return out
+
+
+def limb_structured(rng):
+    """hi * 2^w + lo with w in {32, 64, 96}: a low limb that is tiny (below 10^8), zero, or within 10^8 of wrapping, under
+    a random odd or even high part - where hand-written carry propagation between limbs goes wrong."""
+    w = rng.choice((32, 64, 64, 64, 96))
+    hi = rng.getrandbits(rng.randrange(1, 128 - w))
+    k = rng.randrange(5)
+    if k == 0:
+        lo = rng.randrange(0, 100)
+    elif k == 1:
+        lo = rng.randrange(0, min(10 ** 8, 1 << w))
+    elif k == 2:
+        lo = (1 << w) - 1 - rng.randrange(0, min(10 ** 8, 1 << w))
+    elif k == 3:
+        lo = (1 << w) - 1 - rng.randrange(0, 100)
+    else:
+        lo = rng.getrandbits(w) & ~((1 << rng.randrange(1, w)) - 1)       # trailing zero bits
+    return min(M, (hi << w) + lo)
+
+
+def prefix_structured(rng):
+    """A coefficient whose leading decimal digits, read as a number P, are binary-structured (2^k, 2^k +- 1, a multiple of
+    2^56 / 2^60 / 2^63 / 2^64 beyond 2^64, a type maximum) followed by d more digits (d = 8, 16, 24 favoured: the chunk
+    sizes of digit-group accumulators), the tail random, zeros, or nines. Returns a positive coefficient <= M."""
+    k = rng.randrange(6)
+    if k == 0:
+        P = 1 << rng.randrange(20, 127)
+    elif k == 1:
+        P = (1 << rng.randrange(20, 127)) + rng.choice((-1, 1))
+    elif k == 2:
+        t = rng.choice((56, 60, 63, 64))
+        P = (1 << 64) + (rng.randrange(0, 1 << (rng.randrange(1, 60))) << t)
+    elif k == 3:
+        t = rng.choice((32, 48, 56, 64, 96))
+        P = rng.getrandbits(rng.randrange(1, 127 - t)) << t
+    elif k == 4:
+        P = rng.choice(TYPE_MAXIMA[:5]) + rng.choice((0, 1, 2, -1))
+    else:
+        P = limb_structured(rng)
+    P = max(P, 1)
+    room = 38 - len(str(P))
+    if room <= 0:
+        return min(P, M)
+    d = rng.choice((8, 16, 24, 8, 16, rng.randrange(0, room + 1)))
+    d = min(d, room)
+    j = rng.randrange(4)
+    tail = 0 if j == 0 else (10 ** d - 1 if j == 1 else rng.randrange(0, 10 ** d))
+    c = P * 10 ** d + tail
+    return c if c <= M else P
+
+
+def modinv_boundary(rng, n=None):
+    """(c, n): a coefficient at the decision boundary of a division-free divisibility test by 5^n (or 10^n) in w-bit
+    arithmetic: x is divisible by the odd d iff x * inv(d) mod 2^w <= floor((2^w - 1) / d). c = (m << z) with
+    m = (floor((2^w - 1) / 5^n) + j) * 5^n mod 2^w, j in -2..50 - the non-multiples whose product with the inverse
+    lands just beyond the bound (j >= 1) and the last true multiples (j <= 0); z supplies the 2^n part."""
+    if n is None:
+        n = rng.randrange(1, 19)
+    w = rng.choice((32, 64, 64, 128, 128))
+    d = 5 ** n
+    if d >> w:
+        w = 128
+    qmax = ((1 << w) - 1) // d
+    j = rng.choice((0, 1, 1, 2, 3, -1, -2, rng.randrange(1, 50)))
+    m = ((qmax + j) * d) % (1 << w)
+    if rng.random() < 0.15:
+        # the same for 3 (bankers' thirds), 7, 9, 11 - other constants somebody may test divisibility by
+        d = rng.choice((3, 7, 9, 11, 25, 125))
+        m = ((((1 << w) - 1) // d + j) * d) % (1 << w)
+    z = rng.choice((0, n, n, n + 1, rng.randrange(0, 20)))
+    c = m << z
+    while c > M:
+        c >>= 1
+    return c, n
+
+
+def modinv_boundary_all(rng):
+    """The systematic version of modinv_boundary: every n in 1..18, every word size, j in {-1, 0, 1, 2, 3, random},
+    shifted by 0, n and n + 1 bits (and by n bits with a small odd cofactor). Returns [(c, n)] with 0 < c <= M."""
+    out = []
+    for n in range(1, 19):
+        d = 5 ** n
+        for w in (32, 64, 128):
+            if d >> w:
+                continue
+            qmax = ((1 << w) - 1) // d
+            for j in (-1, 0, 1, 2, 3, rng.randrange(4, 50)):
+                m = ((qmax + j) * d) % (1 << w)
+                for z in (0, n, n + 1):
+                    c = m << z
+                    if 0 < c <= M:
+                        out.append((c, n))
     return out
